@@ -127,6 +127,26 @@ void c_param_mismatch(void)
   }
   __CPROVER_assert(0, "REACH! c_param_mismatch");
 }
+/* C04: "the report gives its source location, its text, the expected parameter values and the required and actual counts" */
+void c_unfulfilled(void)
+{
+  SMALL(x0); int n = W_X == 5 ? 0 : 1; struct OBS o; g_tracer_obj_ptr = 0;
+  C04_UNF(x0, n, &o);
+  __CPROVER_assert(o.ret == 1 && vp_exc == 0 && !vp_terminated, "[C04,C15] POST unfulfilled.the_scope_is_left_normally");
+  __CPROVER_assert(vp_rep_n == 1 && vp_rep[0].sev == 1, "[C04,C15] POST unfulfilled.one_non_fatal_report_at_the_end_of_the_scope");
+  const struct vp_string *m = &vp_rep[0].msg; int nv = 0, n2 = 0, ncnt = 0; _Bool named = 0;
+  __CPROVER_assert(!m->overflow, "[C04] MODEL token capacity sufficient");
+  for (int k = 0; k < VP_TOK_CAP; k++) if (k < m->n) {
+    if (m->t[k].kind == VP_T_INT && (int)m->t[k].v == x0) nv++;
+    if (m->t[k].kind == VP_T_ULONG && m->t[k].v == 2) n2++;
+    if (m->t[k].kind == VP_T_ULONG && m->t[k].v == (unsigned long)n) ncnt++;
+    if (m->t[k].kind == VP_T_CSTR && m->t[k].p != 0 && ((const char *)m->t[k].p)[0] == 'm' && ((const char *)m->t[k].p)[1] == '.' && ((const char *)m->t[k].p)[2] == 'p') named = 1;
+  }
+  __CPROVER_assert(vp_rep[0].line > 0 && vp_rep[0].file != 0 && named, "[C04,C15] POST unfulfilled.the_report_carries_the_expectation_location_and_text");
+  __CPROVER_assert(nv >= 1, "[C04] POST unfulfilled.the_report_gives_the_expected_parameter_value");
+  __CPROVER_assert(n2 >= 1, "[C04] POST unfulfilled.the_report_gives_the_required_count");
+  __CPROVER_assert(0, "REACH! c_unfulfilled");
+}
 /* C08: THROW */
 void c_throw(void)
 {
